@@ -15,7 +15,7 @@ DECIDES = ('grid, quad and triangle index arithmetic follows the sample grid lay
            'facet count equal to the list iterated, one normal from triangle_normal(t) and the three vertices of t per facet (ST1); the '
            'container tessellates serially and in parallel with the same worker (AG5); the trimming point-in-polygon test uses the non-zero '
            'winding rule (WN1); [SKEL, bounded] make_triangle_mesh never indexes outside its vertex array and creates exactly one vertex per '
-           'strided sample for sample sizes 2..13 (thorough: 2..40), square and non-square, every spacing dividing size - 1.')
+           'strided sample for sample sizes 2..13 (thorough: 2..40), square and non-square, every spacing dividing size - 1. every surface of a container gets its own tessellator object (IV7).')
 NOT_DECIDED = 'Euler characteristic, orientation, exact tiling, that vertex positions equal the surface (needs C01), trimmed region vs cell size, normals\' direction: geometric/numerical.'
 TECHNIQUE = 'stride rule on preallocated arrays, axis tags, writer structure rules, branch equivalence; bounded index-skeleton interpretation'
 
@@ -100,6 +100,8 @@ def check(m, run):
     c17.ag5(m, run)
     wn1(m, run)
     off1(m, run)
+    c12_mod = __import__('sa.checks.c12', fromlist=['iv7'])
+    c12_mod.iv7(m, run)
     from . import c12
     c12.foreign_cache_in(m, run, 'elements', ('self._data',))
     exporters = [m.func('exchange.' + n) for n in ('export_obj_str', 'export_off_str', 'export_stl_str')]
